@@ -53,7 +53,8 @@ type linEvent struct {
 	Scen   string              `json:"scen,omitempty"`
 	Calls  []opCall            `json:"calls,omitempty"`
 	Drift  []string            `json:"drift,omitempty"`
-	Ctr    map[string]Ctr      `json:"ctr,omitempty"` // metrics event: counters scraped from the production binary
+	Ctr    map[string]Ctr      `json:"ctr,omitempty"`  // metrics event: counters scraped from the production binary
+	Told   *int                `json:"told,omitempty"` // ret of a stale update through the endpoint: the size the 409 body states (abstract)
 }
 
 type linRecorder struct {
